@@ -68,7 +68,7 @@ def run_bb(name, model, x, y, bs, image, expl_for_metrics):
     from xplique.metrics import Deletion, Insertion, MuFidelity
     _seed(1234)
     if name == "Occlusion":
-        return Occlusion(model, batch_size=bs, patch_size=2 if image else 1, patch_stride=1)(x, y).numpy()
+        return Occlusion(model, batch_size=bs, patch_size=(min(2, x.shape[1]), min(2, x.shape[2])) if image else 1, patch_stride=1)(x, y).numpy()
     if name == "Rise":
         return Rise(model, batch_size=bs, nb_samples=12, grid_size=2)(x, y).numpy()
     if name == "Sobol":
@@ -167,12 +167,42 @@ def build_torch(d, rng):
                 def forward(self, x):
                     return self.head(torch.relu(F.conv2d(x, self.w, stride=(sh, sw))).flatten(1))
             net = Net()
+        elif kind in ("param_dense", "param_conv"):
+            # ONE user-defined class whose layers depend on a constructor argument (added after a seeded per-class
+            # cache of the Conv2d inspection was missed)
+            net = _param_class()(kind == "param_conv", C, Fo, kh, kw, sh, sw, hp, wp, H, W, nc)
         else:
             raise ValueError(kind)
     with torch.no_grad():
         for p in net.parameters():
             p.copy_(torch.tensor(_ints(rng, tuple(p.shape))))
     return net.eval()
+
+
+_PARAM = {}
+
+
+def _param_class():
+    if "cls" not in _PARAM:
+        import torch
+        from torch import nn
+
+        class Classifier(nn.Module):
+            def __init__(self, use_conv, C, Fo, kh, kw, sh, sw, hp, wp, H, W, nc):
+                super().__init__()
+                self.use_conv = use_conv
+                if use_conv:
+                    self.body = nn.Conv2d(C, Fo, (kh, kw), stride=(sh, sw))
+                    self.head = nn.Linear(Fo * hp * wp, nc)
+                else:
+                    self.body = nn.Flatten()
+                    self.head = nn.Linear(H * W * C, nc)
+
+            def forward(self, x):
+                z = self.body(x)
+                return self.head(torch.relu(z).flatten(1) if self.use_conv else z)
+        _PARAM["cls"] = Classifier
+    return _PARAM["cls"]
 
 
 def run_wrap_case(ctx, d):
@@ -190,6 +220,12 @@ def run_wrap_case(ctx, d):
     y = (rng.integers(-4, 5, size=(n, nc)) / 2).astype("float32")
     if not np.any(y):
         y[0, 0] = 1.0
+    if d["kind"] == "param_dense":
+        # a convolutional instance of the SAME class is wrapped first in the same process
+        from xplique.wrappers import TorchWrapper as _TW
+        ok, w0 = ctx.impl_call(dict(d, step="prelude"), lambda: _TW(build_torch(dict(d, kind="param_conv"), rng), "cpu"))
+        if ok:
+            ctx.check_prop("conversion-decision", bool(w0.channel_first), dict(d, step="prelude"), {"channel_first": bool(w0.channel_first)})
     seen = []
     net.register_forward_pre_hook(lambda m, inp: seen.append(inp[0].detach().cpu().numpy().copy()))
     ok, wr = ctx.impl_call(d, lambda: TorchWrapper(net, "cpu", is_channel_first=flag))
@@ -198,7 +234,7 @@ def run_wrap_case(ctx, d):
         return
     kinds = [bool(isinstance(m, torch.nn.Conv2d)) for m in net.modules()]
     want_cf = bool(flag) if flag is not None else any(kinds)
-    needs_cf = d["kind"] in ("cnn", "cnn_flag", "nested", "functional")
+    needs_cf = d["kind"] in ("cnn", "cnn_flag", "nested", "functional", "param_conv")
     ctx.count("wrap_kind", d["kind"])
     ctx.check_prop("conversion-decision", bool(wr.channel_first) == want_cf and want_cf == needs_cf, d,
                    {"channel_first": bool(wr.channel_first), "flag": flag, "has_conv2d": any(kinds)})
@@ -319,7 +355,7 @@ def gen_wrap_cases(ctx):
     rng = ctx.rng
     thorough = ctx.tier == "thorough"
     ncases = (60 if thorough else 12) * ctx.budget_scale
-    kinds = ["cnn", "nested", "mlp", "cnn_flag", "own_permute", "functional", "cnn"]
+    kinds = ["cnn", "nested", "mlp", "cnn_flag", "param_dense", "own_permute", "functional", "cnn", "param_conv"]
     cases = []
     for i in range(ncases):
         kind = kinds[i % len(kinds)]
@@ -337,9 +373,17 @@ def gen_wrap_cases(ctx):
             kh, kw = int(rng.integers(1, 4)), int(rng.integers(1, 4))
             if kh == kw:
                 kw = kw % 3 + 1
+            if rng.random() < 0.3:
+                # "strip" images: one singleton spatial axis with C > 1 (added after a seeded reshape shortcut was missed)
+                C = [3, 4, 2][int(rng.integers(3))]
+                if rng.random() < 0.5:
+                    H, kh = 1, 1
+                else:
+                    W, kw = 1, 1
             d["in_shape"] = [H, W, C]
             d["conv"] = [int(rng.integers(1, 4)), kh, kw, int(rng.integers(1, 3)), int(rng.integers(1, 3))]
-            d["flag"] = {"cnn": None, "nested": None, "cnn_flag": True, "own_permute": False, "functional": True}[kind]
+            d["flag"] = {"cnn": None, "nested": None, "cnn_flag": True, "own_permute": False, "functional": True,
+                         "param_dense": None, "param_conv": None}[kind]
         cases.append(d)
     return cases
 
